@@ -1438,6 +1438,11 @@ public:
     // We conservatively mark the region as may-initialized
     new_rgn_info.init_val() = boolean_value::top();
 
+    // Whether val is not written to the ghost variables of rgn because
+    // of its dynamic type. Even then the memory is written: allocation
+    // sites and tags of rgn must take val into account.
+    bool skip_write = false;
+
     if (is_tracked_unknown_region(rgn)) {
       const type_value &rgn_ty = old_rgn_info.type_val();
       if (rgn_ty.is_bottom()) {
@@ -1449,8 +1454,7 @@ public:
         crab::CrabStats::count(domain_name() +
                                ".count.ref_store.skipped.dynamic_type_is_top");
         forget_region_ghost_vars(rgn);
-        m_rgn_env.set(rgn, new_rgn_info);
-        return;
+        skip_write = true;
       } else if (rgn_ty.get().is_unknown_region()) {
         // 1. Set the dynamic type of the unknown region. From now on,
         // all memory accesses must satisfy this type.
@@ -1484,8 +1488,7 @@ public:
             crab::CrabStats::count(
                 domain_name() +
                 ".count.ref_store.skipped.inconsistent_dynamic_type");
-            m_rgn_env.set(rgn, new_rgn_info);
-            return;
+            skip_write = true;
           } else if (val.get_type().is_reference()) {
             // Reinterpret the region
             //
@@ -1523,14 +1526,13 @@ public:
                 domain_name() +
                 ".count.ref_store.skipped.inconsistent_dynamic_type");
             forget_region_ghost_vars(rgn);
-            m_rgn_env.set(rgn, new_rgn_info);
-            return;
+            skip_write = true;
           }
         }
       }
     }
 
-    bool is_tracked_rgn = is_tracked_region(rgn);
+    bool is_tracked_rgn = !skip_write && is_tracked_region(rgn);
     if (!is_tracked_rgn) {
       CRAB_LOG(
           "region-store",
